@@ -354,6 +354,7 @@ func genCall() *rapid.Generator[call] {
 }
 
 func TestDelivery(t *testing.T) {
+	vlib.ManyCallSites() // a long-running process has seen thousands of call sites
 	rapid.Check(t, func(t *rapid.T) {
 		c := genConfig().Draw(t, "config")
 		k := genCall().Draw(t, "call")
